@@ -21,6 +21,13 @@ void valid_case(const LPrt& p, Stats& st) {
 	prtgen::compare(a, p, "after read");
 	prtgen::cross_field(a, "after read");
 	std::vector<uint8_t> w1 = prtgen::write_art(a);
+	if ((fnv1a(in.data(), in.size()) & 3) == 0) {   // the file-name overloads: same structure in, same bytes out, also over an older, longer file
+		std::string fp = scratch_path("c10_in.prt"), op = scratch_path("c10_out.prt");
+		write_file(fp, in); ArtFile af = ArtFile::Read(fp); prtgen::compare(af, p, "after Read(filename)");
+		write_file(op, std::vector<uint8_t>(w1.size() + 4000, 0x2E)); af.Write(op);
+		std::vector<uint8_t> wf; read_file(op, wf); first_diff(wf, w1, "Write(filename) over an existing longer file vs Write(stream)");
+		st.cls("file_name_overloads");
+	}
 	prtgen::compare(a, p, "source object after Write (writing must not alter it)");
 	bool canonical = true; for (auto& h : p.palHeaders) if (h.overallLen != 1048 || h.headLen != 4 || h.tagCount != 1 || h.dataLen != 1024) canonical = false;
 	if (canonical) first_diff(w1, in, "written bytes vs input bytes (canonical palette headers)");
